@@ -118,7 +118,7 @@ def _explore_task(job, jidx, pre, shared, stats, sample_every, known_builder, de
     if profile is not None:
         stats['functions'] = sorted(profile)
     if c.dump:
-        stats['dump'] = c.dump[:10]
+        stats['dump'] = c.dump[:4]
 
 
 def _new_stats():
@@ -206,7 +206,7 @@ def run_jobs(jobs, workers=16, sample_every=50, known_builder=None, deadline_s=3
             if st['functions']:
                 a['functions'] = st['functions']
             if st.get('dump'):
-                a['dump'] = (a['dump'] + st['dump'])[:10]
+                a['dump'] = (a['dump'] + st['dump'])[:6]
     for p in ps:
         p.join(timeout=5)
         if p.is_alive():
